@@ -58,13 +58,19 @@ Definition fam_assign_tag (t v : str) (fm : family) : res family :=
 Definition fam_unassign_tag (t : str) (fm : family) : family * bool :=
   if amem t (f_tags fm) then (mkFam (f_versions fm) (aremove t (f_tags fm)), true) else (fm, false).
 
-(* removeVersion; pinned: the comprehension compares the (directory, table, Table) tuples of
-   self.versions with the version name, finds nothing, and leaves the tags *)
+Definition remove_keys {V} (ks : list str) (m : amap V) : amap V := fold_left (fun m k => aremove k m) ks m.
+
+(* the tags of a version: the keys of self.tags whose value is the version *)
+Definition tags_of_version (v : str) (tags : amap str) : list str :=
+  filter (fun t => opt_str_eqb (alookup t tags) v) (akeys tags).
+
+(* removeVersion: itsTags = ...; for tag in itsTags: self.unassignTag(tag); del self.versions[version].
+   Pinned: the comprehension runs over self.versions.items(), compares the (directory, table,
+   Table) tuples with the version name, finds nothing, and the tags stay *)
 Definition fam_remove_version (pin_rm : bool) (v : str) (fm : family) : family * bool :=
   if fam_has_version v fm then
     (mkFam (aremove v (f_versions fm))
-           (if pin_rm then f_tags fm
-            else filter (fun tv : str * str => negb (str_eqb (snd tv) v)) (f_tags fm)), true)
+           (if pin_rm then f_tags fm else remove_keys (tags_of_version v (f_tags fm)) (f_tags fm)), true)
   else (fm, false).
 
 (* one flavor's data: product name -> family (the content of one cache file) *)
@@ -356,7 +362,7 @@ Definition repaired : variant := mkVar false false.
 (* neededFlavors of Eups.__init__ *)
 Definition needed (pin_init : bool) (fl : str) : list str := if pin_init then [fl] else fallbacks fl.
 
-Definition act_stack (x : aact) : str :=
+Definition act_root (x : aact) : str :=
   match x with ASetDecl s _ _ _ _ | ADelDecl s _ _ _ | ASetTag s _ _ _ _ | ADelTag s _ _ _ => s end.
 
 (* one group per call of Database.declare (with the tag it carries) / undeclare / assignTag / unassignTag *)
@@ -365,7 +371,11 @@ Fixpoint groups (xs : list aact) : list (list aact) :=
   | [] => []
   | ASetDecl s n v f r :: rest =>
       match rest with
-      | ASetTag s' n' t' f' v' :: rest' => [ASetDecl s n v f r; ASetTag s' n' t' f' v'] :: groups rest'
+      | ASetTag s' n' t' f' v' :: rest' =>
+          (* Database.declare(product) with the tag the product carries: same stack, product, flavor, version *)
+          if str_eqb s s' && str_eqb n n' && str_eqb f f' && str_eqb v v'
+          then [ASetDecl s n v f r; ASetTag s' n' t' f' v'] :: groups rest'
+          else [ASetDecl s n v f r] :: groups rest
       | _ => [ASetDecl s n v f r] :: groups rest
       end
   | x :: rest => [x] :: groups rest
@@ -376,7 +386,7 @@ Definition save_always (g : list aact) : bool :=
   match g with ADelTag _ _ _ _ :: _ => false | _ => true end.
 
 Definition group_stack (g : list aact) : str :=
-  match g with x :: _ => act_stack x | [] => [] end.
+  match g with x :: _ => act_root x | [] => [] end.
 
 Inductive gres := GOk | GCrashed | GRaised.
 
